@@ -123,6 +123,15 @@ theorem undelegate_keepsOs (e : Env) (s : State) (g : Dec) (del : Addr) (val : V
               simp_all
 
 
+theorem redelegate_keepsOs (e : Env) (s : State) (g : Dec) (del : Addr) (src dst : ValAddr) (amt : Int) :
+    keepsOs s (stakeRedelegate e s g del src dst amt) := by
+  unfold keepsOs
+  split
+  · rename_i s' hs
+    exact redelegate_keeps osPart (fun e s s' g g' v a b h => verifySuper_osS e s s' g g' v a b h)
+      (fun s s' a b x h => send_osS s s' a b x h) (fun _ _ => rfl) e s g del src dst amt s' hs
+  · trivial
+
 /-! ### every operation -/
 theorem begin_os (e : Env) (s s' : State) (h : nodeBeginBlock e s = .ok s') : osPart s' = osPart s := by
   unfold nodeBeginBlock at h
@@ -198,6 +207,7 @@ theorem stepC_ext (e : Env) (s : State) (op : Op) (hb : Bnd s) : Ext s (stepC e 
   case didupdate m => exact atomic_ext _ _ hb (fun s' h => os_ext (by obtain ⟨d, hd⟩ := didUpdate_ok s s' m h; rw [hd]; rfl) hb)
   case delegate => exact Ext.refl hb
   case undelegate => exact Ext.refl hb
+  case redelegate => exact Ext.refl hb
   case restart => exact Ext.refl hb
   case genesis =>
     show Ext s (exportImport s)
@@ -222,6 +232,13 @@ theorem C16_step_keeps_ids_below_counters (e : Env) (y : Sys) (op : Op) (hb : Bn
   case undelegate c v a =>
     simp only [step, stepBase, stakeStep]
     have := undelegate_keepsOs e y.st y.global c v a
+    unfold keepsOs at this
+    split
+    · rename_i s' hs; rw [hs] at this; exact os_ext this hb
+    · exact Ext.refl hb
+  case redelegate c v w a =>
+    simp only [step, stepBase, stakeStep]
+    have := redelegate_keepsOs e y.st y.global c v w a
     unfold keepsOs at this
     split
     · rename_i s' hs; rw [hs] at this; exact os_ext this hb
